@@ -761,6 +761,8 @@ def sweep_cases(codec, style, quick):
     own = ALIASES[cs]
     others = [ALIASES[c][0] for c in other_codecs(cs)]
     isbom = codec == "utf-8-bom"
+    # after a BOM: text whose first characters are themselves encoded from the bytes of the BOM (EF BB BF) or begin with EF
+    segs_bom = [("text", "\ufefb\uff01\ufeff\ufffb first\n")] + segs
     decls = []
     if style == "comment":
         decls = [(a, None, None) for a in own]
@@ -796,7 +798,7 @@ def sweep_cases(codec, style, quick):
                 sel = outs
             for oe, er in sel:
                 v = vs[(i + len(er)) % 2]
-                yield (codec, style, segs, v, oe, er), dict(comment_enc=cenc, fmt=fmt, ie=ie, neg=neg,
+                yield (codec, style, segs_bom if (isbom and i % 2 == 0) else segs, v, oe, er), dict(comment_enc=cenc, fmt=fmt, ie=ie, neg=neg,
                                                             fi=FUTURE[i % len(FUTURE)] if i % 3 == 1 else None,
                                                             fnx=FNX[i % len(FNX)] if i % 4 == 2 else None,
                                                             term="\r\n" if i % 4 == 0 else "\n",
